@@ -8,6 +8,7 @@ import (
 
 	"github.com/pingcap/kvproto/pkg/kvrpcpb"
 	"github.com/tikv/client-go/v2/config"
+	"github.com/tikv/client-go/v2/kv"
 	"github.com/tikv/client-go/v2/oracle"
 	"github.com/tikv/client-go/v2/tikvrpc"
 )
@@ -92,5 +93,52 @@ func ZZ_C04_ttl_manager() {
 		lastAdvised = hb.AdviseLockTtl
 	}
 	c.ttlManager.close()
+	zzRunAll()
+}
+
+// ZZ_C04_ttl_primary_change: the primary chosen by a first statement may be given up again
+// (lock-only-if-exists on an absent key locks nothing); a later statement chooses the real primary.
+// Every heart-beat sent afterwards names the key that carries the transaction's primary lock, and
+// heart-beats do flow once there is one.
+func ZZ_C04_ttl_primary_change() {
+	zzEngineOnly() // virtual clock
+	s, cl := zzNewStore(nil, 0)
+	defer s.close()
+	cl.faithful = true
+	k1, k2 := []byte("k1"), []byte("k2")
+	if zzBool("k1-exists") {
+		ks := cl.key(k1)
+		ks.writes = append(ks.writes, zzWrite{startTS: 400, commitTS: 500, op: kvrpcpb.Op_Put, value: []byte("v")})
+	}
+	txn := zzBegin(s)
+	txn.SetPessimistic(true)
+	ctx := context.Background()
+	fut, _ := s.orc.GetTimestamp(ctx, nil)
+	l1 := kv.NewLockCtx(fut, kv.LockNoWait, time.Now())
+	l1.LockOnlyIfExists = true
+	l1.ReturnValues = true
+	l1.Values = map[string]kv.ReturnedValue{}
+	zzAssert(txn.LockKeys(ctx, l1, k1) == nil, "ttl-primary.first-statement-ok")
+	fut2, _ := s.orc.GetTimestamp(ctx, nil)
+	l2 := kv.NewLockCtx(fut2, kv.LockNoWait, time.Now())
+	zzAssert(txn.LockKeys(ctx, l2, k2) == nil, "ttl-primary.second-statement-ok")
+	zzRunAll()
+	period := time.Duration(atomic.LoadUint64(&ManagedLockTTL)) * time.Millisecond / 2
+	for i := 0; i < zzParam("ticks", 2); i++ {
+		zzAdvance(int64(period))
+		zzRunAll()
+	}
+	primary := txn.committer.primary()
+	pl := cl.key(primary).lock
+	zzAssert(pl != nil && pl.startTS == txn.StartTS() && bytes.Equal(pl.primary, primary), "ttl-primary.primary-lock-is-in-the-store")
+	nHB := 0
+	for _, r := range cl.log {
+		if r.cmd == tikvrpc.CmdTxnHeartBeat {
+			nHB++
+			zzAssert(bytes.Equal(r.req.TxnHeartBeat().PrimaryLock, primary), "ttl-primary.heartbeat-names-the-primary-lock")
+		}
+	}
+	zzAssert(nHB >= 1, "ttl-primary.heartbeats-flow")
+	_ = txn.Rollback()
 	zzRunAll()
 }
